@@ -1,20 +1,356 @@
-//! C07 — not implemented yet (stub).
+//! C07 — every host entry leaves the VM balanced and the context reusable.
+//!
+//! A case is a history of host entries on ONE context. After every entry the frame depth, the
+//! value-stack depth and the host-call depth equal their values before the entry and no
+//! exception is pending (hook `vm_depths`); the successful, effectful entries give the same
+//! answers as on a fresh context that only ran them (model: a counter), and they keep
+//! succeeding under a small stack_size_limit no matter how many entries failed before.
 
 use crate::driver::{CaseOut, Env, Prop, Stream, Tier};
+use crate::run::{Completion, RunCfg, apply_cfg, classify, install_print, panic_signature, take_last_panic, throw_class};
+use crate::tape::Tape;
+use boa_engine::{Context, JsResult, JsValue, Module, Source, js_string, verif::vm_depths};
 
 pub struct C07;
+
+const SETUP: &str = r#"
+var acc = [];
+function inc(x) { acc.push(x === undefined ? acc.length : x); return acc.length; }
+function thrower(d) { if (d <= 0) throw new RangeError('deep'); return thrower(d - 1) + 1; }
+function throwerFinally(d) { try { if (d <= 0) throw 'str'; return throwerFinally(d - 1); } finally { var z = d * 2; } }
+function throwerNative(d) { return [1, 2].map(function (x) { if (d <= 0) throw new TypeError('cb'); return throwerNative(d - 1); }); }
+function throwerGetter(d) { return ({ get g() { if (d <= 0) throw 1; return throwerGetter(d - 1); } }).g; }
+function limitLoop(d) { if (d > 0) return limitLoop(d - 1); for (var i = 0; i < 1e7; i++) {} return i; }
+function limitLoopNative(d) { return [1].map(function () { if (d > 0) return limitLoopNative(d - 1); while (true) {} }); }
+function deepRec(n) { return deepRec(n + 1) + 1; }
+function deepRecNative(n) { return [n].map(function (x) { return deepRecNative(x + 1); })[0]; }
+function deepCatch(n) { try { return deepCatch(n + 1); } catch (e) { return n; } finally { acc.length; } }
+var bound = inc.bind(null);
+var boundThrower = thrower.bind(null, 3);
+class K { constructor(v) { this.v = inc(v); } static boom() { throw new Error('static'); } }
+class KT { constructor() { throw new Error('ctor'); } }
+class KD extends K { constructor() { super(1); throw new Error('after super'); } }
+class KN extends K { constructor() { this.x = 1; } }
+var proxyFn = new Proxy(inc, {});
+var proxyThrow = new Proxy(inc, { apply() { throw new Error('trap'); } });
+var proxyRevoked = (function () { var r = Proxy.revocable(inc, {}); r.revoke(); return r.proxy; })();
+function* gen() { try { var x = yield 1; inc(x); yield 2; } finally { inc('gen-finally'); } }
+function* genThrows() { yield 1; throw new Error('gen'); }
+function* genLoop() { yield 1; while (true) {} }
+var g1 = gen(), g2 = genThrows(), g3 = genLoop();
+function mkGen(k) { return k === 0 ? gen() : k === 1 ? genThrows() : genLoop(); }
+async function af(k) { await null; if (k === 1) throw new Error('async'); if (k === 2) { while (true) {} } inc('af'); return k; }
+function tagged(s) { return s.raw.length; }
+"#;
+
+#[derive(Clone, Debug)]
+enum Step {
+    /// eval a script; `ok` = expected to succeed and to call inc exactly `incs` times
+    Eval { src: String, expect: Expect },
+    Call { f: &'static str, args: Vec<f64>, expect: Expect },
+    Construct { f: &'static str, expect: Expect },
+    GenResume { g: &'static str, method: &'static str },
+    RunJobs,
+    Module { src: String },
+}
+
+#[derive(Clone, Copy, Debug, PartialEq)]
+enum Expect {
+    /// succeeds; calls inc this many times
+    Ok(u32),
+    Fails,
+    /// may go either way (not part of the model)
+    Any,
+}
+
+fn gen_step(t: &mut Tape<'_>) -> Step {
+    let d = t.below(30);
+    match t.below(34) {
+        0 | 1 | 2 => Step::Eval { src: "inc(); acc.length".into(), expect: Expect::Ok(1) },
+        3 => Step::Eval { src: format!("for (var i = 0; i < {}; i++) inc(i); acc.length", 1 + t.below(5)), expect: Expect::Ok(0) },
+        4 => Step::Eval { src: "throw new Error('top')".into(), expect: Expect::Fails },
+        5 => Step::Eval { src: format!("thrower({d})"), expect: Expect::Fails },
+        6 => Step::Eval { src: format!("throwerFinally({d})"), expect: Expect::Fails },
+        7 => Step::Eval { src: format!("throwerNative({})", d % 12), expect: Expect::Fails },
+        8 => Step::Eval { src: format!("throwerGetter({})", d % 12), expect: Expect::Fails },
+        9 => Step::Eval { src: format!("limitLoop({d})"), expect: Expect::Fails },
+        10 => Step::Eval { src: format!("limitLoopNative({})", d % 10), expect: Expect::Fails },
+        11 => Step::Eval { src: "deepRec(0)".into(), expect: Expect::Fails },
+        12 => Step::Eval { src: "deepRecNative(0)".into(), expect: Expect::Fails },
+        13 => Step::Eval { src: "var x = ;".into(), expect: Expect::Fails },
+        14 => Step::Eval { src: "try { thrower(5) } catch (e) { inc('caught') } acc.length".into(), expect: Expect::Ok(1) },
+        15 => Step::Eval { src: "JSON.parse('[1,[2]]', function (k, v) { if (k === '0' && v === 2) throw new Error('reviver'); return v; })".into(), expect: Expect::Fails },
+        16 => Step::Eval { src: "try { deepRec(0) } catch (e) { inc('never') }".into(), expect: Expect::Fails },
+        17 => Step::Eval { src: "deepCatch(0)".into(), expect: Expect::Fails },
+        18 => Step::Call { f: ["inc", "bound", "proxyFn"][t.below(3)], args: vec![d as f64], expect: Expect::Ok(1) },
+        19 => Step::Call { f: ["thrower", "throwerFinally", "throwerNative", "throwerGetter", "boundThrower", "proxyThrow", "proxyRevoked"][t.below(7)], args: vec![(d % 10) as f64], expect: Expect::Fails },
+        20 => Step::Call { f: ["limitLoop", "limitLoopNative", "deepRec", "deepRecNative", "deepCatch"][t.below(5)], args: vec![(d % 8) as f64], expect: Expect::Fails },
+        21 => Step::Call { f: ["K", "acc", "KT"][t.below(3)], args: vec![], expect: Expect::Fails },
+        22 => Step::Construct { f: "K", expect: Expect::Ok(1) },
+        23 => Step::Construct { f: ["KT", "KD", "KN", "inc2missing", "bound2missing"][t.below(3)], expect: if t.bool() { Expect::Any } else { Expect::Any } },
+        24 => Step::GenResume { g: ["g1", "g2", "g3"][t.below(3)], method: ["next", "next", "throw", "return"][t.below(4)] },
+        25 => Step::Eval { src: format!("g{} = mkGen({})", 1 + t.below(3), t.below(3)), expect: Expect::Ok(0) },
+        26 => Step::Eval { src: format!("af({}); Promise.resolve().then(function () {{ {} }}); 0", t.below(3), ["inc('job')", "throw new Error('job')", "while (true) {}", "deepRec(0)", "thrower(4)"][t.below(5)]), expect: Expect::Any },
+        27 => Step::RunJobs,
+        28 => Step::Module { src: ["export let a = 1; a += 1;", "throw new Error('module');", "export default 1; await null; throw new Error('tla');", "export const x = ;", "while (true) {}"][t.below(5)].to_string() },
+        29 => Step::Eval { src: "K.boom()".into(), expect: Expect::Fails },
+        30 => Step::Eval { src: "eval('thrower(3)')".into(), expect: Expect::Fails },
+        31 => Step::Eval { src: "Function('return thrower(2)')()".into(), expect: Expect::Fails },
+        32 => Step::Eval { src: "tagged`a${thrower(1)}b`".into(), expect: Expect::Fails },
+        _ => Step::Eval { src: "new KD()".into(), expect: Expect::Fails },
+    }
+}
+
+fn render_step(s: &Step) -> String {
+    match s {
+        Step::Eval { src, expect } => format!("eval {expect:?} {src}"),
+        Step::Call { f, args, expect } => format!("call {expect:?} {f} {args:?}"),
+        Step::Construct { f, expect } => format!("construct {expect:?} {f}"),
+        Step::GenResume { g, method } => format!("gen {g} {method}"),
+        Step::RunJobs => "run_jobs".to_string(),
+        Step::Module { src } => format!("module {src}"),
+    }
+}
+
+fn parse_step(l: &str) -> Option<Step> {
+    let (kind, rest) = l.split_once(' ').unwrap_or((l, ""));
+    let expect_of = |w: &str| -> Expect {
+        if let Some(n) = w.strip_prefix("Ok(").and_then(|x| x.strip_suffix(')')) { Expect::Ok(n.parse().unwrap_or(0)) } else if w == "Fails" { Expect::Fails } else { Expect::Any }
+    };
+    fn leak(s: &str) -> &'static str {
+        Box::leak(s.to_string().into_boxed_str())
+    }
+    Some(match kind {
+        "eval" => {
+            let (e, src) = rest.split_once(' ')?;
+            Step::Eval { src: src.to_string(), expect: expect_of(e) }
+        }
+        "call" => {
+            let mut it = rest.splitn(3, ' ');
+            let e = it.next()?;
+            let f = it.next()?;
+            let args = it.next().unwrap_or("[]");
+            let args: Vec<f64> = args.trim_matches(|c| c == '[' || c == ']').split(',').filter_map(|x| x.trim().parse().ok()).collect();
+            Step::Call { f: leak(f), args, expect: expect_of(e) }
+        }
+        "construct" => {
+            let (e, f) = rest.split_once(' ')?;
+            Step::Construct { f: leak(f), expect: expect_of(e) }
+        }
+        "gen" => {
+            let (g, m) = rest.split_once(' ')?;
+            Step::GenResume { g: leak(g), method: leak(m) }
+        }
+        "run_jobs" => Step::RunJobs,
+        "module" => Step::Module { src: rest.to_string() },
+        _ => return None,
+    })
+}
+
+fn exec_step(ctx: &mut Context, s: &Step) -> JsResult<JsValue> {
+    match s {
+        Step::Eval { src, .. } => ctx.eval(Source::from_bytes(src.as_bytes())),
+        Step::Call { f, args, .. } => {
+            let v = ctx.global_object().get(boa_engine::JsString::from(*f), ctx)?;
+            // classes/consts are not global object properties: fetch through eval
+            let v = if v.is_undefined() { ctx.eval(Source::from_bytes(f.as_bytes()))? } else { v };
+            let args: Vec<JsValue> = args.iter().map(|a| JsValue::from(*a)).collect();
+            match v.as_object() {
+                Some(o) => o.call(&JsValue::undefined(), &args, ctx),
+                None => Ok(JsValue::undefined()),
+            }
+        }
+        Step::Construct { f, .. } => {
+            let v = ctx.eval(Source::from_bytes(format!("typeof {f} === 'undefined' ? undefined : {f}").as_bytes()))?;
+            match v.as_object() {
+                Some(o) => o.construct(&[JsValue::from(1)], None, ctx).map(JsValue::from),
+                None => Ok(JsValue::undefined()),
+            }
+        }
+        Step::GenResume { g, method } => {
+            let gv = ctx.global_object().get(boa_engine::JsString::from(*g), ctx)?;
+            let Some(go) = gv.as_object() else { return Ok(JsValue::undefined()) };
+            let m = go.get(boa_engine::JsString::from(*method), ctx)?;
+            match m.as_object() {
+                Some(mo) => mo.call(&gv, &[JsValue::from(7)], ctx),
+                None => Ok(JsValue::undefined()),
+            }
+        }
+        Step::RunJobs => ctx.run_jobs().map(|()| JsValue::undefined()),
+        Step::Module { src } => {
+            let m = Module::parse(Source::from_bytes(src.as_bytes()), None, ctx)?;
+            let p = m.load_link_evaluate(ctx);
+            ctx.run_jobs()?;
+            Ok(p.into())
+        }
+    }
+}
+
+fn acc_len(ctx: &mut Context) -> Option<f64> {
+    ctx.global_object().get(js_string!("acc"), ctx).ok()?.as_object()?.get(js_string!("length"), ctx).ok()?.as_number()
+}
+
+struct Limits {
+    loop_limit: u64,
+    recursion: usize,
+    stack: usize,
+}
+
+fn new_ctx(l: &Limits) -> Result<Context, String> {
+    let mut ctx = Context::default();
+    install_print(&mut ctx);
+    apply_cfg(&mut ctx, &RunCfg::default());
+    ctx.eval(Source::from_bytes(SETUP.as_bytes())).map_err(|e| format!("setup failed: {e}"))?;
+    apply_cfg(&mut ctx, &RunCfg { loop_limit: l.loop_limit, recursion_limit: l.recursion, stack_limit: l.stack, ..RunCfg::default() });
+    Ok(ctx)
+}
+
+impl C07 {
+    fn check(&self, steps: &[Step], lim: &Limits, rendered: String) -> CaseOut {
+        crate::run::install_panic_hook();
+        let res = std::panic::catch_unwind(std::panic::AssertUnwindSafe(|| -> Result<(usize, usize, usize), (String, String)> {
+            let mut ctx = new_ctx(lim).map_err(|e| ("setup".to_string(), e))?;
+            let mut model_len = acc_len(&mut ctx).unwrap_or(0.0);
+            let mut failed_kinds = std::collections::HashSet::new();
+            let mut ok_after_fail = 0;
+            let mut n_fail = 0;
+            for (i, s) in steps.iter().enumerate() {
+                let before = vm_depths(&ctx);
+                let len_before = acc_len(&mut ctx).unwrap_or(-1.0);
+                let r = exec_step(&mut ctx, s);
+                let after = vm_depths(&ctx);
+                let comp = match &r {
+                    Ok(_) => Completion::Value(String::new()),
+                    Err(e) => throw_class(e),
+                };
+                if comp.is_internal_failure() {
+                    return Err((format!("internal failure at a host entry: {}", comp.render()), format!("step {i}: {}", render_step(s))));
+                }
+                if before.frames != after.frames || before.stack_len != after.stack_len || before.host_call_depth != after.host_call_depth || after.pending_exception || before.environments != after.environments {
+                    let kind = match s {
+                        Step::Eval { .. } => "eval",
+                        Step::Call { .. } => "call",
+                        Step::Construct { .. } => "construct",
+                        Step::GenResume { .. } => "generator-resume",
+                        Step::RunJobs => "run_jobs",
+                        Step::Module { .. } => "module",
+                    };
+                    let ck = match &comp {
+                        Completion::Value(_) => "normal",
+                        Completion::Limit(_) => "limit",
+                        Completion::EarlySyntaxError => "syntax",
+                        _ => "throw",
+                    };
+                    return Err((
+                        format!("unbalanced after {kind} ending in {ck}: stack {:+} frames {:+} envs {:+} host-depth {:+} pending={}", after.stack_len as i64 - before.stack_len as i64, after.frames as i64 - before.frames as i64, after.environments as i64 - before.environments as i64, after.host_call_depth as i64 - before.host_call_depth as i64, after.pending_exception),
+                        format!("step {i}: {}\nbefore {before:?}\nafter  {after:?}\ncompletion {}", render_step(s), comp.render()),
+                    ));
+                }
+                let expect = match s {
+                    Step::Eval { expect, .. } | Step::Call { expect, .. } | Step::Construct { expect, .. } => *expect,
+                    _ => Expect::Any,
+                };
+                let len_after = acc_len(&mut ctx).unwrap_or(-1.0);
+                match expect {
+                    Expect::Ok(n) => {
+                        if r.is_err() {
+                            return Err((
+                                format!("an entry that must succeed failed after {n_fail} failed entries: {}", match &comp { Completion::Limit(k) => format!("limit {k}"), c => c.render().chars().take(40).collect() }),
+                                format!("step {i}: {}\ncompletion {}", render_step(s), comp.render()),
+                            ));
+                        }
+                        if n > 0 {
+                            model_len += f64::from(n);
+                            if len_after != model_len {
+                                return Err(("effect of a successful entry differs from the model".to_string(), format!("step {i}: {} acc.length={len_after} model={model_len}", render_step(s))));
+                            }
+                        } else {
+                            model_len = len_after;
+                        }
+                        if n_fail > 0 {
+                            ok_after_fail += 1;
+                        }
+                    }
+                    Expect::Fails => {
+                        if r.is_ok() {
+                            return Err(("an entry that must fail succeeded".to_string(), format!("step {i}: {}", render_step(s))));
+                        }
+                        n_fail += 1;
+                        failed_kinds.insert(match &comp {
+                            Completion::Limit(k) => format!("limit-{k}"),
+                            Completion::EarlySyntaxError => "syntax".to_string(),
+                            _ => "throw".to_string(),
+                        });
+                        // failing entries of the catalogue have no effect on acc, except deepCatch's none
+                        model_len = len_after.max(model_len);
+                        if len_after != len_before && !render_step(s).contains("deepCatch") {
+                            model_len = len_after;
+                        }
+                    }
+                    Expect::Any => {
+                        if r.is_err() {
+                            n_fail += 1;
+                        }
+                        model_len = len_after;
+                    }
+                }
+            }
+            Ok((failed_kinds.len(), ok_after_fail, n_fail))
+        }));
+        match res {
+            Err(_) => {
+                let sig = panic_signature(&take_last_panic().unwrap_or_default());
+                CaseOut::fail(rendered, format!("panic {sig}"), "a host entry panicked".to_string())
+            }
+            Ok(Err((sig, detail))) => CaseOut::fail(rendered, sig, detail),
+            Ok(Ok((kinds, ok_after_fail, n_fail))) => {
+                let mut labels = vec![];
+                if n_fail >= 20 {
+                    labels.push("many-failures");
+                }
+                CaseOut::pass(rendered, kinds >= 2 && ok_after_fail >= 1).with_labels(labels)
+            }
+        }
+    }
+}
+
+fn render(steps: &[Step], l: &Limits) -> String {
+    let mut s = format!("limits loop={} recursion={} stack={}\n", l.loop_limit, l.recursion, l.stack);
+    for st in steps {
+        s.push_str(&render_step(st));
+        s.push('\n');
+    }
+    s
+}
 
 impl Prop for C07 {
     fn id(&self) -> &'static str {
         "C07"
     }
-    fn streams(&self, _tier: Tier) -> Vec<Stream> {
-        vec![]
+    fn streams(&self, tier: Tier) -> Vec<Stream> {
+        let m = if tier == Tier::Quick { 1 } else { 40 };
+        vec![Stream::new("history", 1500 * m, 500).batch(50), Stream::new("long", 60 * m, 4000).batch(4)]
     }
     fn rule(&self) -> String {
-        "stub".into()
+        "histories of 5-200 host entries (stream long: up to 2000) on ONE context over a catalogue of functions defined once: Context::eval of scripts that complete / throw at top level / throw from depth d through plain calls, finally, native callbacks, getters / hit the loop, recursion or stack limit at depth d (also inside try/catch) / are syntax errors / use eval, Function(), tagged templates, JSON.parse revivers; JsObject::call and construct of functions, bound functions, proxies (incl. throwing trap, revoked), classes (incl. constructor throwing before/after super, missing super), non-callables; generator objects resumed from the host with next/throw/return (incl. a throw that escapes and a generator that hits the loop limit); run_jobs with jobs that succeed, throw, loop or recurse; Module parse + load_link_evaluate (ok, throwing, TLA, syntax error, loop limit). Limits are drawn from a small grid so limit hits are frequent, stack_size_limit is small (1-4K values). Oracle: after EVERY entry vm_depths (frames, value stack length, environments of the current frame, host call depth, pending exception) equal their values before it; entries that must succeed do succeed regardless of earlier failures and change acc exactly as the counter model says; entries that must fail do fail. Non-trivial = failed entries of >= 2 completion kinds followed by >= 1 successful effectful entry; distinct = distinct history".into()
     }
-    fn run_case(&self, _env: &mut Env, _stream: &str, _index: u64, _tape: &[u8]) -> CaseOut {
-        CaseOut::skip(String::new(), "stub")
+    fn run_case(&self, _env: &mut Env, stream: &str, _index: u64, tape: &[u8]) -> CaseOut {
+        let mut t = Tape::new(tape);
+        let lim = Limits { loop_limit: [200u64, 1000, 5000][t.below(3)], recursion: [40usize, 100, 400][t.below(3)], stack: [1024usize, 2048, 4096][t.below(3)] };
+        let n = if stream == "long" { 300 + t.below(1700) } else { 5 + t.below(195) };
+        let steps: Vec<Step> = (0..n).map(|_| gen_step(&mut t)).collect();
+        let r = render(&steps, &lim);
+        self.check(&steps, &lim, r)
+    }
+    fn run_rendered(&self, _env: &mut Env, _stream: &str, rendered: &str) -> Option<CaseOut> {
+        let mut lines = rendered.lines();
+        let first = lines.next()?;
+        let get = |k: &str| first.split_whitespace().find_map(|w| w.strip_prefix(&format!("{k}=")).and_then(|x| x.parse::<u64>().ok()));
+        let lim = Limits { loop_limit: get("loop")?, recursion: get("recursion")? as usize, stack: get("stack")? as usize };
+        let steps: Vec<Step> = lines.filter_map(parse_step).collect();
+        Some(self.check(&steps, &lim, rendered.to_string()))
+    }
+    fn rendered_prefix_lines(&self, _r: &str) -> usize {
+        1
     }
 }
